@@ -137,6 +137,10 @@ JsonDocs == <<
 \* the illegal characters (bytes): '@', 0x01, '\', U+0080.  None of them can stand between two tokens of
 \* either language.
 Illegal == << <<64>>, <<1>>, <<92>>, <<194, 128>> >>
+\* JavaScript only: '#', where the token after it does not begin like an identifier ('#' + identifier is one token, a
+\* private name; before anything else a '#' is an illegal character)
+IllegalJs == Illegal \o << <<35>> >>
+IdStartByte(b) == (b >= 65 /\ b <= 90) \/ (b >= 97 /\ b <= 122) \/ b = 36 \/ b = 95 \/ b = 92 \/ b >= 128
 
 VARIABLES suite, doc     \* doc: sequence of token names; <<>> initially
 gvars == <<suite, doc>>
@@ -181,11 +185,11 @@ Row(toks, bd) ==
     LET off == OffsetOf(toks, bd)
         bytes == Flatten(SubSeq(toks, 1, bd - 1), 1) \o <<64>> \o Flatten(SubSeq(toks, bd, Len(toks)), 1)
         r == AsRuns(ClassesOf(bytes, 1))
-    IN [bd |-> bd, off |-> off, line |-> LineOf(r, off), col |-> ColOf(r, off)]
+    IN [bd |-> bd, off |-> off, line |-> LineOf(r, off), col |-> ColOf(r, off), idnext |-> IdStartByte(toks[bd][1])]
 
 Case ==
     LET toks == [i \in 1..Len(doc) |-> Tok(doc[i])] IN
-    [suite |-> suite, toks |-> toks, illegal |-> Illegal,
+    [suite |-> suite, toks |-> toks, illegal |-> (IF suite = "js" THEN IllegalJs ELSE Illegal),
      rows |-> {Row(toks, bd) : bd \in 2..Len(doc)}]
 
 CaseFile == IOEnv.VERIF_CASES
